@@ -59,7 +59,8 @@ def rand_units(rng, kind=None, room=0):
     hi_last = 0xFFFF - room
     if kind == 'bmp':
         # keep incremented BMP targets out of the surrogate block in the common case
-        base = rng.choice([0x20, 0x41, 0x3B1, 0x4E00, 0xFB00, 0xFEF0, 0xFFF0, 0xAC00, rng.randrange(0x20, 0xD000)])
+        base = rng.choice([0x20, 0x41, 0x3B1, 0x4E00, 0xFB00, 0xFEF0, 0xFFF0, 0xAC00, 0xFEFF, 0xFFFE, 0xEFBB, 0xBF41, 0xFEFE,
+                           rng.randrange(0x20, 0xD000)])
         return [min(base, max(0, hi_last))]
     if kind == 'pair':
         lo = rng.choice([0xDC00, 0xDE00, 0xDF00, rng.randrange(0xDC00, 0xE000)])
@@ -303,7 +304,7 @@ def render_cmap(rng, defs, lens, first, plain_meta=False):
 # cases
 # ------------------------------------------------------------------------------------------
 
-ENCS = ['none', 'none', xb('Identity-H'), xb('Identity-H'), xb('Identity-V')]
+ENCS = ['none', 'none', xb('Identity-H'), xb('Identity-H'), xb('Identity-V')] * 5 + [xb('WinAnsiEncoding'), xb('UniGB-UCS2-H'), xb('Identity')]
 
 
 def mapped_codes(defs):
@@ -416,7 +417,7 @@ def damage(rng, stream):
 
 
 def gen_cases(rng, tier):
-    n = 260 if tier == 'quick' else 8000
+    n = 1500 if tier == 'quick' else 40000
     cases = []
     for k in range(n):
         defs, lens, first = gen_table(rng)
